@@ -326,7 +326,10 @@ where
         .fields
         .iter()
         .map(|(name, r#type)| {
-            let field_name = Ident::new(name, Span::call_site());
+            let field_name = Ident::new(
+                shared::keyword_replace(name.to_snake_case()).as_ref(),
+                Span::call_site(),
+            );
             let provided_value = object_map.get(name);
             match provided_value {
                 Some(default_value) => {
